@@ -325,4 +325,93 @@ Section Proofs.
     destruct (sample_levels_props head last step Hs Hle) as [Hd Hb].
     rewrite intervals_correct; auto; rewrite Hb; auto.
   Qed.
+  (* ---- without any hypothesis on the history: termination and soundness ----
+     every reported pair is a genuine change point of the range, levels strictly increase *)
+  Definition genuine (lo hi : Z) (r : list (Z * V)) : Prop :=
+    (forall l v, In (l, v) r -> lo < l <= hi /\ v = get l /\ get l <> get (l - 1)) /\
+    StronglySorted Z.lt (map fst r).
+
+  Lemma sorted_app (a b : list Z) : StronglySorted Z.lt a -> StronglySorted Z.lt b ->
+    (forall x y, In x a -> In y b -> x < y) -> StronglySorted Z.lt (a ++ b).
+  Proof.
+    induction a as [|x a IH]; intros Ha Hb Hab; cbn [app]; [exact Hb|].
+    inversion Ha as [|? ? Ha' Hx]; subst. constructor.
+    - apply IH; auto. intros u w Hu Hw. apply Hab; [now right | exact Hw].
+    - apply Forall_forall. intros y Hy. apply in_app_or in Hy. destruct Hy as [Hy | Hy].
+      + rewrite Forall_forall in Hx. now apply Hx.
+      + apply Hab; [now left | exact Hy].
+  Qed.
+
+  Lemma genuine_app lo mid hi a b : lo <= mid -> mid <= hi ->
+    genuine lo mid a -> genuine mid hi b -> genuine lo hi (a ++ b).
+  Proof.
+    intros H1 H2 [Ha1 Ha2] [Hb1 Hb2]. split.
+    - intros l v HIn. apply in_app_or in HIn. destruct HIn as [HIn | HIn].
+      + destruct (Ha1 l v HIn) as (? & ? & ?). split; [lia | now split].
+      + destruct (Hb1 l v HIn) as (? & ? & ?). split; [lia | now split].
+    - rewrite map_app. apply sorted_app; auto.
+      intros x y Hx Hy. apply in_map_iff in Hx. apply in_map_iff in Hy.
+      destruct Hx as [[l v] [<- Hx]]. destruct Hy as [[l' v'] [<- Hy]].
+      destruct (Ha1 l v Hx) as (? & _). destruct (Hb1 l' v' Hy) as (? & _). cbn. lia.
+  Qed.
+
+  Lemma genuine_weaken lo hi lo' hi' r : genuine lo hi r -> lo' <= lo -> hi <= hi' -> genuine lo' hi' r.
+  Proof.
+    intros [H1 H2] Hlo Hhi. split; [|exact H2].
+    intros l v HIn. destruct (H1 l v HIn) as (? & ? & ?). split; [lia | now split].
+  Qed.
+
+  Lemma genuine_nil lo hi : genuine lo hi [].
+  Proof. split; [intros l v [] | constructor]. Qed.
+
+  Lemma walk_sound : forall fuel head level,
+    level <= head -> head - level <= Z.of_nat fuel ->
+    exists r, walk eqb get fuel head (get head) level (get level) = Some r /\ genuine level head r.
+  Proof.
+    induction fuel as [|fuel IH]; intros head level Hle Hf.
+    - assert (level = head) by lia. subst level. cbn [walk]. rewrite eqb_refl.
+      exists []. split; [reflexivity | apply genuine_nil].
+    - cbn [walk]. destruct (eqb (get level) (get head)) eqn:E.
+      + exists []. split; [reflexivity | apply genuine_nil].
+      + apply eqb_false in E.
+        assert (Hlt : level < head).
+        { destruct (Z.eq_dec level head) as [-> | Hne]; [congruence | lia]. }
+        destruct (find_state_change_a_change (get level) level head Hlt eq_refl (not_eq_sym E))
+          as (l & H1 & H2 & H3 & H4).
+        destruct (IH head l) as (r & Hr & Hg); try lia.
+        rewrite H1, Hr. exists ((l, get l) :: r). split; [reflexivity|].
+        change ((l, get l) :: r) with ([(l, get l)] ++ r).
+        apply (genuine_app level l head); try lia; [|exact Hg].
+        split.
+        * intros l' v' [HIn | []]. injection HIn as <- <-.
+          split; [lia|]. split; [reflexivity|]. rewrite H3. exact H4.
+        * cbn. constructor; constructor.
+  Qed.
+
+  Lemma intervals_sound : forall levels sl, desc sl levels ->
+    exists r, walk_all eqb get (rev (intervals_loop eqb get levels sl (get sl))) = Some r /\
+              genuine (bottom sl levels) sl r.
+  Proof.
+    induction levels as [|level rest IH]; intros sl Hd.
+    - exists []. split; [reflexivity | apply genuine_nil].
+    - destruct Hd as [Hlt Hd]. cbn [intervals_loop bottom].
+      pose proof (desc_bottom_le _ _ Hd) as Hb.
+      destruct (IH level Hd) as (r1 & Hr1 & Hg1).
+      destruct (eqb (get level) (get sl)) eqn:E.
+      + apply eqb_spec in E. rewrite <- E. exists r1. split; [exact Hr1|].
+        apply (genuine_weaken _ _ _ _ _ Hg1); lia.
+      + cbn [rev]. rewrite walk_all_app, Hr1. cbn [walk_all].
+        destruct (walk_sound (Z.to_nat (sl - level)) sl level) as (r2 & Hr2 & Hg2); try lia.
+        unfold walk_state_change_interval. rewrite Hr2. exists (r1 ++ r2 ++ []). split; [reflexivity|].
+        rewrite app_nil_r. apply (genuine_app _ level _); auto; lia.
+  Qed.
+
+  Lemma find_state_changes_sound head last step : 1 <= step -> last <= head ->
+    exists r, find_state_changes eqb get head last step = Some r /\ genuine last head r.
+  Proof.
+    intros Hs Hle. unfold find_state_changes, find_state_change_intervals.
+    destruct (sample_levels_props head last step Hs Hle) as [Hd Hb].
+    destruct (intervals_sound _ _ Hd) as (r & Hr & Hg). exists r. split; [exact Hr|].
+    now rewrite Hb in Hg.
+  Qed.
 End Proofs.
